@@ -6,7 +6,8 @@ constants), each run against ALL checks on a scratch copy.  Every report is a fa
 The counterpart of tools/mutation_sweep.py: that one measures sensitivity, this one specificity.  Results go to
 .cache/equivalence-sweep.json; nothing here is part of a registered check."""
 import sys, os, re, json, shutil, argparse, hashlib
-sys.path.insert(0, '/verif')
+HERE = os.path.dirname(os.path.dirname(os.path.abspath(__file__)))
+sys.path.insert(0, HERE)
 from concurrent.futures import ProcessPoolExecutor
 from sa import mutate, props, sweep
 
@@ -76,7 +77,7 @@ def main():
     ap = argparse.ArgumentParser()
     ap.add_argument('--files', nargs='*', default=[])
     ap.add_argument('--jobs', type=int, default=12)
-    ap.add_argument('--out', default='/verif/.cache/equivalence-sweep.json')
+    ap.add_argument('--out', default=os.path.join(HERE, '.cache', 'equivalence-sweep.json'))
     a = ap.parse_args()
     edits = enumerate_edits(sweep.source_files(REPO, a.files))
     print(len(edits), 'edits', flush=True)
